@@ -140,4 +140,26 @@ def sObs (c : Cfg SShared SLocal) : SObs :=
 def holdsS (o : SObs) : Bool :=
   o.rclose == 1 && o.wclose == 1 && o.op != 3 && o.afterClean && o.leak == 0
 
+/-! ### Data in flight: whatever ends the copy, the bridge's byte counter and the mapping's totals
+equal the bytes the destination endpoint accepted — each byte reported exactly once. -/
+
+structure FObs where
+  del : Nat               -- bytes the target endpoint accepted
+  cnt : Nat               -- bridge bytesSent after the copy loop returned
+  statS : Nat
+  statR : Nat
+  leak : Nat
+  deriving DecidableEq, Repr
+
+def fObsOf (st : C02.St) (rep : RShared) : FObs := ⟨st.delivered.length, st.counter, rep.statS, rep.statR, 0⟩
+
+def fObs (i : FlowIn) (s₂ : Schedule) : FObs := fObsOf (flowCopy i) (flowReport i s₂)
+
+/-- `lateFlush`: an explicit `Bridge.Close` while the loop runs reports before the loop's last
+flush; the last partial batch may then reach the totals only through the periodic goroutine's
+final report (observed, racy) — never more than once. -/
+def holdsF (lateFlush : Bool) (o : FObs) : Bool :=
+  o.cnt == o.del && (if lateFlush then decide (o.statS ≤ o.del) else o.statS == o.del) &&
+  o.statR == 0 && o.leak == 0
+
 end Tunnox.C16
